@@ -171,6 +171,182 @@ def opGridFS : Op := fun j => do
     ("life", Json.arr l.out), ("chunks", Json.arr chunks.toArray), ("file", file), ("marker", marker),
     ("open", openE), ("reads", Json.arr reads.toArray)]))
 
-def opsGridFS : List (String × Op) := [("gridfs.run", opGridFS)]
+/-! ## op `gridfs.multi`: several upload / download streams of one bucket alive at the same time
+
+  Request
+    {"op":"gridfs.multi","buf":B,"tracked":bool,"nfiles":k,"contents":[content…],
+     "ops":[["open",h,fid,chunk,ci] | ["write",h,n] | ["close",h] | ["abort",h] | ["suspend",h] | ["resume",h]
+           | ["upload",fid,chunk,ci] | ["claim",fid] | ["delete",fid] | ["cleanup"]
+           | ["dopen",d,fid] | ["dread",d,n] | ["dseek",d,off,whence] …]}
+  Upload handles `h` and download handles `d` are keys of two maps of model streams over ONE store; a
+  handle keeps the index `ci` of the content it writes and its offset (as the client of gridfs.run).
+  "upload" is UploadFromStreamWithID with a bytes.Reader (one Write of everything; Abort when the Write
+  fails; Close; Abort when the Close fails).  An operation on a handle that does not exist (failed open) replies ["x"].
+  Reply {"ok":{"life":[… as gridfs.run, plus ["U",err] ["O",err]],"state":[[chunks,file,marker] for fid 1..k]}}
+-/
+
+structure UpH where
+  s : UploadStream
+  ci : Nat
+  off : Nat
+
+structure Multi where
+  st : Store := {}
+  ups : List (Nat × UpH) := []
+  downs : List (Nat × DownloadStream) := []
+  out : Array Json := #[]
+
+def aInsert {α : Type} (l : List (Nat × α)) (k : Nat) (v : α) : List (Nat × α) :=
+  (k, v) :: l.filter fun p => p.1 != k
+
+def aErase {α : Type} (l : List (Nat × α)) (k : Nat) : List (Nat × α) :=
+  l.filter fun p => p.1 != k
+
+def Multi.push (m : Multi) (j : Json) : Multi := { m with out := m.out.push j }
+
+def contentAt (contents : Array (List UInt8)) (ci : Nat) : List UInt8 :=
+  match contents[ci]? with
+  | some c => c
+  | none => []
+
+def multiStep (contents : Array (List UInt8)) (tracked : Bool) (buf : Nat) (m : Multi) (e : Json) : Except String Multi := do
+  let a ← e.getArr?
+  let tag : String := match a[0]? with
+    | some (Json.str t) => t
+    | _ => ""
+  let x := Json.arr #[Json.str "x"]
+  match tag with
+  | "open" =>
+    let h ← arrNat a 1
+    let fid ← arrNat a 2
+    let c ← arrInt a 3
+    let ci ← arrNat a 4
+    match openUpload tracked fid c buf with
+    | .ok s => pure ({ m with ups := aInsert m.ups h ⟨s, ci, 0⟩ }.push (Json.arr #[Json.str "o", Json.null]))
+    | .error err => pure ({ m with ups := aErase m.ups h }.push (Json.arr #[Json.str "o", jErr (some err)]))
+  | "write" =>
+    let h ← arrNat a 1
+    let n ← arrNat a 2
+    match m.ups.lookup h with
+    | none => pure (m.push x)
+    | some u =>
+      let data := ((contentAt contents u.ci).drop u.off).take n
+      let (st, s, w, err) := u.s.write m.st data
+      pure ({ m with st, ups := aInsert m.ups h ⟨s, u.ci, if err.isNone then u.off + w else u.off⟩ }.push
+        (Json.arr #[Json.str "w", jNat w, jErr err]))
+  | "close" =>
+    let h ← arrNat a 1
+    match m.ups.lookup h with
+    | none => pure (m.push x)
+    | some u =>
+      let (st, s, err) := u.s.close m.st
+      pure ({ m with st, ups := aInsert m.ups h { u with s } }.push (Json.arr #[Json.str "c", jErr err]))
+  | "abort" =>
+    let h ← arrNat a 1
+    match m.ups.lookup h with
+    | none => pure (m.push x)
+    | some u =>
+      let (st, s, err) := u.s.abort m.st
+      pure ({ m with st, ups := aInsert m.ups h { u with s } }.push (Json.arr #[Json.str "a", jErr err]))
+  | "suspend" =>
+    let h ← arrNat a 1
+    match m.ups.lookup h with
+    | none => pure (m.push x)
+    | some u =>
+      let (st, s, n, err) := u.s.suspend m.st
+      pure ({ m with st, ups := aInsert m.ups h { u with s } }.push (Json.arr #[Json.str "s", jNat n, jErr err]))
+  | "resume" =>
+    let h ← arrNat a 1
+    match m.ups.lookup h with
+    | none => pure (m.push x)
+    | some u =>
+      let (s, n, err) := u.s.resume m.st
+      pure ({ m with ups := aInsert m.ups h ⟨s, u.ci, if err.isNone then n else u.off⟩ }.push
+        (Json.arr #[Json.str "r", jNat n, jErr err]))
+  | "upload" =>
+    let fid ← arrNat a 1
+    let c ← arrInt a 2
+    let ci ← arrNat a 3
+    match openUpload tracked fid c buf with
+    | .error err => pure (m.push (Json.arr #[Json.str "U", jErr (some err)]))
+    | .ok s =>
+      match s.write m.st (contentAt contents ci) with
+      | (st, s, _, some err) =>
+        let (st, _, _) := s.abort st
+        pure ({ m with st }.push (Json.arr #[Json.str "U", jErr (some err)]))
+      | (st, s, _, none) =>
+        match s.close st with
+        | (st, s, some err) =>
+          let (st, _, _) := s.abort st     -- a failed Close leaves the stream open: Abort removes its chunks / marker
+          pure ({ m with st }.push (Json.arr #[Json.str "U", jErr (some err)]))
+        | (st, _, none) => pure ({ m with st }.push (Json.arr #[Json.str "U", Json.null]))
+  | "claim" =>
+    let (st, err) := claimUpload m.st tracked (← arrNat a 1)
+    pure ({ m with st }.push (Json.arr #[Json.str "k", jErr err]))
+  | "delete" =>
+    let (st, err) := delete m.st tracked (← arrNat a 1)
+    pure ({ m with st }.push (Json.arr #[Json.str "d", jErr err]))
+  | "cleanup" =>
+    let (st, err) := cleanup m.st tracked
+    pure ({ m with st }.push (Json.arr #[Json.str "u", jErr err]))
+  | "dopen" =>
+    let d ← arrNat a 1
+    let fid ← arrNat a 2
+    match DownloadStream.open m.st fid with
+    | .ok ds => pure ({ m with downs := aInsert m.downs d ds }.push (Json.arr #[Json.str "O", Json.null]))
+    | .error err => pure ({ m with downs := aErase m.downs d }.push (Json.arr #[Json.str "O", jErr (some err)]))
+  | "dread" =>
+    let d ← arrNat a 1
+    let n ← arrNat a 2
+    match m.downs.lookup d with
+    | none => pure (m.push x)
+    | some ds =>
+      let r := ds.step m.st (.read n)
+      pure ({ m with downs := aInsert m.downs d r.1 }.push (outJson (.read n) r.2))
+  | "dseek" =>
+    let d ← arrNat a 1
+    let off ← arrInt a 2
+    let wh ← arrInt a 3
+    match m.downs.lookup d with
+    | none => pure (m.push x)
+    | some ds =>
+      let r := ds.step m.st (.seek off wh)
+      pure ({ m with downs := aInsert m.downs d r.1 }.push (outJson (.seek off wh) r.2))
+  | _ => throw "bad multi op"
+
+def parseContent (cj : Json) : Except String (List UInt8) :=
+  match cj.getObjVal? "hex" with
+  | .ok (.str h) => match parseHexBytes h with
+    | some b => pure b
+    | none => throw "bad hex"
+  | _ => do
+    let len ← natField cj "len"
+    let seed ← natField cj "seed"
+    pure (genContent seed len [])
+
+def opGridFSMulti : Op := fun j => do
+  let buf ← natField j "buf"
+  if buf = 0 then throw "buf must be positive"
+  let tracked ← match j.getObjVal? "tracked" with
+    | .ok (.bool b) => pure b
+    | _ => throw "bad tracked"
+  let nfiles ← natField j "nfiles"
+  let contents ← (← (← j.getObjVal? "contents").getArr?).mapM parseContent
+  let ops ← (← j.getObjVal? "ops").getArr?
+  let m ← ops.foldlM (multiStep contents tracked buf) ({} : Multi)
+  let st := m.st
+  let state := (List.range nfiles).map fun i =>
+    let id := i + 1
+    let chunks := (st.chunksOfFile id).map fun d => Json.arr #[jNat d.n, jNat d.data.length, Json.str (digest d.data)]
+    let file := match st.findFile id with
+      | some f => Json.arr #[jNat f.length, jNat f.chunkSize]
+      | none => Json.null
+    let marker := match st.findMarker id with
+      | some mk => Json.arr #[Json.str mk.state.name, jNat mk.length, jNat mk.chunkSize]
+      | none => Json.null
+    Json.arr #[Json.arr chunks.toArray, file, marker]
+  pure (okJ (Json.mkObj [("life", Json.arr m.out), ("state", Json.arr state.toArray)]))
+
+def opsGridFS : List (String × Op) := [("gridfs.run", opGridFS), ("gridfs.multi", opGridFSMulti)]
 
 end Driver
